@@ -4,6 +4,8 @@ From Coq Require Import NArith List Bool.
 From AV Require Import Generated.Table Spec.Utf8 Spec.Vt Model.Base Model.Parser Proofs.TableFacts
   Proofs.VtFacts Proofs.ParserSim Proofs.VtLimits Proofs.VtCancel Proofs.VtCsi Proofs.ParserCor
   Model.Imp Model.Utf8parse Generated.ParserFn Proofs.ParserGen Proofs.ParserGen2.
+  Generated.ParserFn Proofs.ParserGen.
+From AV Require Import Model.Utf8parse Model.Imp Generated.Utf8parseFn Proofs.Utf8parseGen.
 Import ListNotations.
 Local Open Scope N_scope.
 
@@ -261,3 +263,41 @@ Theorem c02_translated_size_hint_overcounts :
   params_groups q = Some [[1; 2]] /\
   g_params_iter_size_hint cfg_default (g_params_iter cfg_default q) = Some (2, Some 2).
 Proof. exact size_hint_overcounts. Qed.
+(* ==== the third-party decoder `utf8parse` ====================================================
+   Generated/Utf8parseFn.v is written on every run by tools/gen_fn_utf8parse.py from the registry
+   source of the `utf8parse` version <repo>/Cargo.lock pins (the unpacked source is compared with the
+   archive whose sha256 is the lock file's checksum, and with what `cargo metadata` says the harness
+   crates build).  `State::advance`, `Parser::{new, perform_action, advance}` and the derived Default
+   are the hand model Model/Utf8parse.v -- the decoder every theorem above goes through -- for EVERY
+   state, accumulated code point and byte.  A `Receiver` is the list of calls it gets. *)
+Theorem c02_translated_utf8parse_state_advance :
+  forall s b, g_u8_state_advance s b = Some (u8_advance s b).
+Proof. exact g_u8_state_advance_eq. Qed.
+
+Theorem c02_translated_utf8parse_perform_action :
+  forall p r b a, g_u8_perform_action p r b a =
+    Some (set_u8point p (fst (u8_perform p b a)), r ++ u8_events (snd (u8_perform p b a))).
+Proof. exact g_u8_perform_action_eq. Qed.
+
+Theorem c02_translated_utf8parse_advance :
+  forall p r b, g_u8_parser_advance p r b =
+    Some (fst (u8_parser_advance p b), r ++ u8_events (snd (u8_parser_advance p b))).
+Proof. exact g_u8_parser_advance_eq. Qed.
+
+Theorem c02_translated_utf8parse_new :
+  g_u8_parser_new = u8_new /\ g_u8_parser_default = u8_new.
+Proof. exact (conj g_u8_parser_new_eq g_u8_parser_default_eq). Qed.
+
+(* a whole byte string through the translated decoder *)
+Theorem c02_translated_utf8parse_run :
+  forall bs p r, g_u8_run p r bs = Some (fst (u8_model_run p bs), r ++ snd (u8_model_run p bs)).
+Proof. exact translated_run_is_model. Qed.
+
+(* anstyle-parse's own glue around the decoder, translated from crates/anstyle-parse/src/lib.rs:
+   <Utf8Parser as CharAccumulator>::add with the two methods of VtUtf8Receiver, and
+   <AsciiParser as CharAccumulator>::add (`unreachable!`), are the hand model's [char_add] *)
+Theorem c02_translated_char_add_is_model :
+  forall c u b,
+    (if utf8_on c then g_pa_utf8_add u b
+     else option_map (fun '(_, o) => (u, o)) (g_pa_ascii_add tt b)) = char_add c u b.
+Proof. exact translated_char_add_is_model. Qed.
